@@ -172,9 +172,29 @@ func argMaxOfCandidates(c *Ctx, fn *ssa.Function, runner ssa.Value, depth int) (
 			return false, "the fired rule is the first candidate in map-iteration order: no selection by Salience"
 		}
 	}
+	// idiom (iii): slices.MaxFunc(candidates, cmp) with a comparator ordering Salience ascending
+	if call, ok := runner.(*ssa.Call); ok {
+		if f := call.Call.StaticCallee(); f != nil && strings.HasPrefix(f.String(), "slices.MaxFunc") && len(call.Call.Args) == 2 {
+			if !isCandidateSlice(call.Call.Args[0]) {
+				return false, "slices.MaxFunc is applied to something other than the candidate slice"
+			}
+			var cmpFn *ssa.Function
+			switch x := call.Call.Args[1].(type) {
+			case *ssa.MakeClosure:
+				cmpFn, _ = x.Fn.(*ssa.Function)
+			case *ssa.Function:
+				cmpFn = x
+			}
+			if good, why := comparatorAscending3(p, cmpFn); good {
+				return true, "slices.MaxFunc over the candidates with a comparator on Salience"
+			} else {
+				return false, "slices.MaxFunc is used but " + why
+			}
+		}
+	}
 	phi, ok := runner.(*ssa.Phi)
 	if !ok {
-		return false, "undecided: the fired rule is not selected by a recognised idiom (linear scan for the maximum, or sort descending then first)"
+		return false, "undecided: the fired rule is not selected by a recognised idiom (linear scan for the maximum, sort descending then first, or slices.MaxFunc)"
 	}
 	loops := naturalLoops(fn)
 	// is phi the header phi of a scan loop?
@@ -803,4 +823,46 @@ func fansOutToAll(p *Prog, h *ssa.Function, method string) bool {
 func elemOfRanged(v ssa.Value, ranged ssa.Value) bool {
 	s, _ := elemOfSlice(v)
 	return s == ranged
+}
+
+// comparatorAscending3: func(a, b *RuleEntry) int returning cmp.Compare(a.Salience, b.Salience) or a.Salience - b.Salience.
+func comparatorAscending3(p *Prog, fn *ssa.Function) (bool, string) {
+	if fn == nil || len(fn.Params) != 2 {
+		return false, "its comparator is not a func(a, b) int literal"
+	}
+	rets := returnsOf(fn)
+	if len(rets) != 1 || len(rets[0].Results) != 1 {
+		return false, "its comparator has more than one return"
+	}
+	side := func(v ssa.Value) int {
+		e := salienceOf(p, stripConv(v))
+		switch e {
+		case ssa.Value(fn.Params[0]):
+			return 1
+		case ssa.Value(fn.Params[1]):
+			return 2
+		}
+		return 0
+	}
+	var x, y ssa.Value
+	switch r := rets[0].Results[0].(type) {
+	case *ssa.BinOp:
+		if r.Op == token.SUB {
+			x, y = r.X, r.Y
+		}
+	case *ssa.Call:
+		if f := r.Call.StaticCallee(); f != nil && strings.HasPrefix(f.String(), "cmp.Compare") && len(r.Call.Args) == 2 {
+			x, y = r.Call.Args[0], r.Call.Args[1]
+		}
+	}
+	if x == nil {
+		return false, "its comparator is neither cmp.Compare(a.Salience, b.Salience) nor a.Salience - b.Salience"
+	}
+	switch {
+	case side(x) == 1 && side(y) == 2:
+		return true, ""
+	case side(x) == 2 && side(y) == 1:
+		return false, "its comparator orders Salience descending, so MaxFunc selects the lowest salience"
+	}
+	return false, "its comparator does not compare the Salience of its two arguments"
 }
